@@ -70,6 +70,7 @@ type Enc struct {
 	modsetMemo map[*ssa.Function]map[string]*Sort
 	funDecls   []string
 	topParams  []ceParam
+	topFrame   *Frame
 	nq         int
 }
 
